@@ -155,17 +155,24 @@ def check(case, rec=None):
                 sc = object.__new__(sparseframe.SparseScan)
                 sc.names = ["row", "col", "intensity"]
                 # two frames: this one and an empty one, then this one again
-                sc.nnz = np.array([nnz, 0, nnz])
+                # frames: this one, an empty one, one that stores only pixels not above the threshold (when the
+                # list has any), this one again
+                low = ~(v > th)
+                nlow = int(low.sum())
+                sc.nnz = np.array([nnz, 0, nlow, nnz])
                 sc.ipt = sparseframe.nnz_to_pointer(sc.nnz)
-                sc.row = np.concatenate([i, i])
-                sc.col = np.concatenate([j, j])
-                sc.intensity = np.concatenate([v, v])
+                sc.row = np.concatenate([i, i[low], i])
+                sc.col = np.concatenate([j, j[low], j])
+                sc.intensity = np.concatenate([v, v[low], v])
                 ok, n2 = guard(sc.cplabel, th, True)
                 if ok:
                     l0 = sc.labels[:nnz]
-                    l1 = sc.labels[nnz:]
+                    l1 = sc.labels[nnz + nlow:]
                     n2 = int(sc.nlabels[0])
-                    if not (sc.nlabels[0] == sc.nlabels[2] and sc.nlabels[1] == 0 and
+                    if (sc.labels[nnz:nnz + nlow] != 0).any():
+                        fails.append(fail("cplabel_counts", "SparseScan.cplabel labels pixels of a frame that has "
+                                          "nothing above the threshold", target=name))
+                    if not (sc.nlabels[0] == sc.nlabels[3] and sc.nlabels[1] == 0 and sc.nlabels[2] == 0 and
                             sc.total_labels == 2 * n2):
                         fails.append(fail("cplabel_counts", "SparseScan.cplabel nlabels %s" %
                                           sc.nlabels.tolist(), target=name))
